@@ -29,6 +29,7 @@ be issued.
 from __future__ import absolute_import
 
 import uuid
+from collections.abc import Mapping, Sequence
 
 from slimta.relay import RelayError
 
@@ -65,11 +66,18 @@ class ProxyQueue(object):
 
     def enqueue(self, envelope):
         try:
-            self.relay._attempt(envelope, 0)
+            results = self.relay._attempt(envelope, 0)
         except RelayError as e:
             return [(envelope, e)]
-        else:
-            return [(envelope, uuid.uuid4().hex)]
+        # A relay may report per-recipient results: the edge can only give
+        # one answer, so any failing recipient fails the whole message.
+        if isinstance(results, Mapping):
+            results = list(results.values())
+        if isinstance(results, Sequence):
+            for result in results:
+                if isinstance(result, RelayError):
+                    return [(envelope, result)]
+        return [(envelope, uuid.uuid4().hex)]
 
 
 # vim:et:fdm=marker:sts=4:sw=4:ts=4
